@@ -6,4 +6,542 @@ import TB.Spec.MetainfoSpec
 import TB.Props.C08
 namespace TB
 
+/-! ### lookups: model (`findValue` on token lists) vs spec (`dictGet` on the erased dictionary) -/
+
+theorem dictGet_eraseDict (ks : List StrTok) (vs : List Tok) (key : Bytes) :
+    dictGet (eraseDict ks vs) key = (findValue ks vs key).map erase := by
+  induction ks generalizing vs with
+  | nil => simp [eraseDict, findValue, dictGet]
+  | cons k ks ih =>
+    cases vs with
+    | nil => simp [eraseDict, findValue, dictGet]
+    | cons v vs =>
+      have ih' := ih vs
+      simp only [dictGet] at ih' ⊢
+      simp only [eraseDict, findValue, List.find?_cons]
+      by_cases hk : k.val = key
+      · simp [hk]
+      · have hb : (k.val == key) = false := by simpa using hk
+        simp only [hb, if_neg hk]
+        exact ih'
+
+theorem getInt_eraseDict (ks : List StrTok) (vs : List Tok) (key : Bytes) :
+    getInt (eraseDict ks vs) key = findInt ks vs key := by
+  simp only [getInt, findInt, dictGet_eraseDict]
+  cases h : findValue ks vs key with
+  | none => rfl
+  | some t => cases t <;> simp [erase, BVal.asInt]
+
+theorem getStr_eraseDict (ks : List StrTok) (vs : List Tok) (key : Bytes) :
+    getStr (eraseDict ks vs) key = findStr ks vs key := by
+  simp only [getStr, findStr, dictGet_eraseDict]
+  cases h : findValue ks vs key with
+  | none => rfl
+  | some t => cases t <;> simp [erase, BVal.asStr]
+
+theorem getList_eraseDict (ks : List StrTok) (vs : List Tok) (key : Bytes) :
+    getList (eraseDict ks vs) key = (findList ks vs key).map eraseList := by
+  simp only [getList, findList, dictGet_eraseDict]
+  cases h : findValue ks vs key with
+  | none => rfl
+  | some t => cases t <;> simp [erase, BVal.asList]
+
+theorem findValue_mem {ks : List StrTok} {vs : List Tok} {key : Bytes} {t : Tok}
+    (h : findValue ks vs key = some t) : t ∈ vs := by
+  induction ks generalizing vs with
+  | nil => simp [findValue] at h
+  | cons k ks ih =>
+    cases vs with
+    | nil => simp [findValue] at h
+    | cons v vs =>
+      simp only [findValue] at h
+      split at h
+      · simp_all
+      · exact List.mem_cons_of_mem _ (ih h)
+
+/-! ### file records -/
+
+/-- `some ↦ ok`, `none ↦ err`: the shape of every total, panic-free loader step -/
+def resOfOption {α : Type} : Option α → Res α
+  | some a => .ok a
+  | none => .err
+
+@[simp] theorem resOfOption_some {α : Type} (a : α) : resOfOption (some a) = .ok a := rfl
+@[simp] theorem resOfOption_none {α : Type} : resOfOption (none : Option α) = .err := rfl
+
+theorem resOfOption_eq_ok {α : Type} {o : Option α} {a : α} : resOfOption o = .ok a ↔ o = some a := by
+  cases o <;> simp [resOfOption]
+
+theorem resOfOption_ne_panic {α : Type} (o : Option α) : resOfOption o ≠ .panic := by
+  cases o <;> simp [resOfOption]
+
+theorem specPath_eraseList (items : List Tok) : specPath (eraseList items) = pathStrings items := by
+  induction items with
+  | nil => simp [eraseList, specPath, pathStrings]
+  | cons t ts ih =>
+    cases t with
+    | str t =>
+      simp only [eraseList, erase, specPath, pathStrings, ih]
+      split
+      · cases pathStrings ts <;> rfl
+      · rfl
+    | int v s c => simp [eraseList, erase, specPath, pathStrings]
+    | list l s c => simp [eraseList, erase, specPath, pathStrings]
+    | dict k v s c => simp [eraseList, erase, specPath, pathStrings]
+
+theorem evaluateFile_eq (ks : List StrTok) (vs : List Tok) :
+    evaluateFile ks vs = resOfOption (specFile (.dict (eraseDict ks vs))) := by
+  simp only [evaluateFile, specFile, getInt_eraseDict, getList_eraseDict, Option.bind_eq_bind]
+  cases h0 : findInt ks vs kLength with
+  | none => simp
+  | some lv =>
+    cases h0' : toU64 lv with
+    | none => simp [h0']
+    | some len =>
+      have key : ∀ items, (match pathStrings items with
+            | none => Res.err
+            | some ps =>
+              if ps.isEmpty then Res.err
+              else if !ps.all plainComponent then Res.err else Res.ok (⟨len, ps⟩ : FileRec))
+          = resOfOption ((specPath (eraseList items)).bind fun path =>
+              if path.isEmpty then none
+              else if !path.all plainComponent then none else some (⟨len, path⟩ : FileRec)) := by
+        intro items
+        rw [specPath_eraseList]
+        cases pathStrings items with
+        | none => rfl
+        | some ps =>
+          simp only [Option.bind_some]
+          by_cases h3 : ps.isEmpty = true
+          · simp only [if_pos h3]; rfl
+          · simp only [if_neg h3]
+            by_cases h4 : (!ps.all plainComponent) = true
+            · simp only [if_pos h4]; rfl
+            · simp only [if_neg h4]; rfl
+      cases h1 : findList ks vs kPathUtf8 with
+      | none =>
+        cases h2 : findList ks vs kPath with
+        | none => simp [h0']
+        | some items =>
+          simp only [h0', Option.bind_some, Option.map_none, Option.map_some, Option.orElse_none]
+          exact key items
+      | some items =>
+        simp only [h0', Option.bind_some, Option.map_some, Option.orElse_some]
+        exact key items
+
+theorem evaluateFiles_eq (items : List Tok) :
+    evaluateFiles items = resOfOption (specFiles (eraseList items)) := by
+  induction items with
+  | nil => rfl
+  | cons t ts ih =>
+    cases t with
+    | dict ks vs s c =>
+      simp only [evaluateFiles, eraseList, erase, specFiles, evaluateFile_eq, ih, Option.bind_eq_bind]
+      cases specFile (.dict (eraseDict ks vs)) with
+      | none => rfl
+      | some f =>
+        cases specFiles (eraseList ts) with
+        | none => rfl
+        | some fs => rfl
+    | str t => simp [evaluateFiles, eraseList, erase, specFiles, specFile]
+    | int v s c => simp [evaluateFiles, eraseList, erase, specFiles, specFile]
+    | list l s c => simp [evaluateFiles, eraseList, erase, specFiles, specFile]
+
+/-! ### hashes and the piece count -/
+
+theorem chunks20_eq_splitHashes (n : Nat) (bs : Bytes) (h : bs.length = 20 * n) :
+    chunks20 (n + 1) bs = splitHashes n bs := by
+  induction n generalizing bs with
+  | zero =>
+    have : bs = [] := List.eq_nil_of_length_eq_zero (by omega)
+    subst this; rfl
+  | succ n ih =>
+    have hne : bs.isEmpty = false := by
+      cases bs with
+      | nil => simp at h
+      | cons b bs => rfl
+    rw [chunks20, splitHashes]
+    simp only [hne]
+    rw [ih]
+    · rfl
+    · simp only [List.length_drop]; omega
+
+theorem splitHashes_length (n : Nat) (bs : Bytes) : (splitHashes n bs).length = n := by
+  induction n generalizing bs with
+  | zero => rfl
+  | succ n ih => simp [splitHashes, ih]
+
+theorem splitHashes_mem_length (n : Nat) (bs : Bytes) (h : bs.length = 20 * n) :
+    ∀ x ∈ splitHashes n bs, x.length = 20 := by
+  induction n generalizing bs with
+  | zero => intro x hx; simp [splitHashes] at hx
+  | succ n ih =>
+    intro x hx
+    simp only [splitHashes, List.mem_cons] at hx
+    rcases hx with rfl | hx
+    · simp only [List.length_take]; omega
+    · exact ih (bs.drop 20) (by simp only [List.length_drop]; omega) x hx
+
+theorem pieceCountOk_eq_spec (total L n : Nat) : pieceCountOk total L n = specPieceCount total L n := by
+  unfold pieceCountOk specPieceCount
+  by_cases hL : L = 0
+  · simp [hL]
+  · simp only [if_neg hL]
+    have hLpos : 0 < L := Nat.pos_of_ne_zero hL
+    rw [Bool.eq_iff_iff]
+    simp only [decide_eq_true_eq]
+    constructor
+    · intro h
+      obtain ⟨h1, h2⟩ := (Nat.div_eq_iff hLpos).1 h.symm
+      refine ⟨by omega, ?_⟩
+      cases n with
+      | zero => left; rfl
+      | succ m =>
+        right
+        rw [Nat.succ_mul] at h1
+        simp only [Nat.add_sub_cancel]
+        omega
+    · rintro ⟨h1, h2⟩
+      symm
+      rw [Nat.div_eq_iff hLpos]
+      refine ⟨?_, by omega⟩
+      rcases h2 with h2 | h2
+      · subst h2; simp
+      · cases n with
+        | zero => simp
+        | succ m =>
+          simp only [Nat.add_sub_cancel] at h2
+          rw [Nat.succ_mul]
+          omega
+
+/-! ### `evaluate_info` is the specification, step for step -/
+
+set_option hygiene false in
+/-- the part of `evaluateInfo_eq` below the choice of the name (used twice) -/
+local macro "info_rest" : tactic => `(tactic| (
+    simp only [Option.orElse_some, Option.orElse_none, Option.bind_some]
+    by_cases hu : (!utf8Valid name) = true
+    · simp only [if_pos hu]; rfl
+    simp only [if_neg hu]
+    by_cases hpc : (!plainComponent name) = true
+    · simp only [if_pos hpc]; rfl
+    simp only [if_neg hpc]
+    cases findStr ks vs kPieces with
+    | none => rfl
+    | some pieces =>
+    simp only [Option.bind_some]
+    by_cases hm : pieces.length % 20 = 0
+    case neg =>
+      have hm' : (pieces.length % 20 != 0) = true := by simpa using hm
+      simp only [if_pos hm', if_pos hm]; rfl
+    have hm' : ¬ (pieces.length % 20 != 0) = true := by simpa using hm
+    have hm'' : ¬ (pieces.length % 20 ≠ 0) := by simpa using hm
+    simp only [if_neg hm', if_neg hm'', chunks20_eq_splitHashes (pieces.length / 20) pieces (by omega),
+      pieceCountOk_eq_spec]
+    cases findInt ks vs kPieceLength with
+    | none => rfl
+    | some plv =>
+    simp only [Option.bind_some]
+    cases toU64 plv with
+    | none => rfl
+    | some pieceLength =>
+    simp only [Option.bind_some]
+    cases findInt ks vs kLength with
+    | none =>
+      cases findList ks vs kFiles with
+      | none => rfl
+      | some items =>
+        simp only [Option.map_some, evaluateFiles_eq]
+        cases specFiles (eraseList items) with
+        | none => rfl
+        | some fs =>
+          simp only [Option.bind_some, resOfOption_some]
+          by_cases he : fs.isEmpty = true
+          · simp only [if_pos he]; rfl
+          simp only [if_neg he]
+          split <;> rfl
+    | some lv =>
+      cases findList ks vs kFiles with
+      | some items => rfl
+      | none =>
+        simp only [Option.map_none]
+        cases toU64 lv with
+        | none => rfl
+        | some l =>
+          simp only [Option.bind_some]
+          split <;> rfl))
+
+theorem evaluateInfo_eq (ks : List StrTok) (vs : List Tok) :
+    evaluateInfo ks vs = resOfOption (specInfo (eraseDict ks vs)) := by
+  simp only [evaluateInfo, specInfo, getStr_eraseDict, getInt_eraseDict, getList_eraseDict, Option.bind_eq_bind]
+  generalize findStr ks vs kNameUtf8 = o1
+  generalize findStr ks vs kName = o2
+  rcases o1 with _ | name
+  · rcases o2 with _ | name
+    · rfl
+    · info_rest
+  · info_rest
+
+
+theorem evaluateInfo_ne_panic (ks : List StrTok) (vs : List Tok) : evaluateInfo ks vs ≠ .panic := by
+  rw [evaluateInfo_eq]; exact resOfOption_ne_panic _
+
+theorem evaluateInfo_ok_iff (ks : List StrTok) (vs : List Tok) (i : Info) :
+    evaluateInfo ks vs = .ok i ↔ specInfo (eraseDict ks vs) = some i := by
+  rw [evaluateInfo_eq]; exact resOfOption_eq_ok
+
+/-! ### spans -/
+
+theorem spansExactList_mem {inp : Bytes} {ts : List Tok} (h : spansExactList inp ts = true) :
+    ∀ t ∈ ts, spansExact inp t = true := by
+  induction ts with
+  | nil => intro t ht; cases ht
+  | cons a as ih =>
+    simp only [spansExactList, Bool.and_eq_true] at h
+    intro t ht
+    rcases List.mem_cons.1 ht with rfl | ht
+    · exact h.1
+    · exact ih h.2 t ht
+
+theorem spansExact_dict {inp : Bytes} {ks : List StrTok} {vs : List Tok} {s c : Nat}
+    (h : spansExact inp (.dict ks vs s c) = true) :
+    s ≤ c ∧ c ≤ inp.length ∧ ks.length = vs.length ∧ slice inp s c = encode (.dict (eraseDict ks vs))
+      ∧ spansExactList inp vs = true := by
+  simp only [spansExact, Bool.and_eq_true, decide_eq_true_eq, beq_iff_eq] at h
+  obtain ⟨⟨⟨⟨⟨h1, h2⟩, h3⟩, h4⟩, _⟩, h6⟩ := h
+  exact ⟨h1, h2, h3, h4, h6⟩
+
+/-! ### what an accepted info dictionary satisfies -/
+
+theorem toU64_le {v : Int} {n : Nat} (h : toU64 v = some n) : n ≤ u64Max := by
+  unfold toU64 at h
+  split at h
+  · cases h; omega
+  · cases h
+
+theorem specPath_utf8 {items : List BVal} {ps : List Bytes} (h : specPath items = some ps) :
+    ∀ c ∈ ps, utf8Valid c = true := by
+  induction items generalizing ps with
+  | nil => simp only [specPath] at h; cases h; intro c hc; cases hc
+  | cons v rest ih =>
+    cases v with
+    | str s =>
+      simp only [specPath] at h
+      split at h
+      · rename_i hu
+        cases hr : specPath rest with
+        | none => rw [hr] at h; cases h
+        | some qs =>
+          rw [hr] at h; cases h
+          intro c hc
+          rcases List.mem_cons.1 hc with rfl | hc
+          · exact hu
+          · exact ih hr c hc
+      · cases h
+    | int v => simp [specPath] at h
+    | list l => simp [specPath] at h
+    | dict d => simp [specPath] at h
+
+theorem specFile_wf {v : BVal} {f : FileRec} (h : specFile v = some f) :
+    f.length ≤ u64Max ∧ f.path ≠ [] ∧ ∀ c ∈ f.path, utf8Valid c = true ∧ plainComponent c = true := by
+  cases v with
+  | dict d =>
+    simp only [specFile, Option.bind_eq_bind, Option.bind_eq_some_iff] at h
+    obtain ⟨len, ⟨lv, _, hlen⟩, items, _, path, hpath, h⟩ := h
+    split at h
+    · cases h
+    · rename_i hne
+      split at h
+      · cases h
+      · rename_i hall
+        cases h
+        refine ⟨toU64_le hlen, ?_, ?_⟩
+        · intro he; apply hne; have he' : path = [] := he; simp [he']
+        · intro c hc
+          refine ⟨specPath_utf8 hpath c hc, ?_⟩
+          simp only [Bool.not_eq_true', Bool.not_eq_false] at hall
+          exact List.all_eq_true.1 hall c hc
+  | int v => simp [specFile] at h
+  | str l => simp [specFile] at h
+  | list d => simp [specFile] at h
+
+theorem specFiles_wf {items : List BVal} {fs : List FileRec} (h : specFiles items = some fs) :
+    ∀ f ∈ fs, f.length ≤ u64Max ∧ f.path ≠ [] ∧ ∀ c ∈ f.path, utf8Valid c = true ∧ plainComponent c = true := by
+  induction items generalizing fs with
+  | nil => simp only [specFiles] at h; cases h; intro f hf; cases hf
+  | cons v rest ih =>
+    simp only [specFiles, Option.bind_eq_bind, Option.bind_eq_some_iff] at h
+    obtain ⟨f0, hf0, fs0, hfs0, h⟩ := h
+    cases h
+    intro f hf
+    rcases List.mem_cons.1 hf with rfl | hf
+    · exact specFile_wf hf0
+    · exact ih hfs0 f hf
+
+theorem specInfo_wf {d : List (Bytes × BVal)} {i : Info} (h : specInfo d = some i) :
+    utf8Valid i.name = true ∧ plainComponent i.name = true
+    ∧ (∀ hsh ∈ i.pieces, hsh.length = 20)
+    ∧ i.pieceLength ≤ u64Max
+    ∧ ((∃ l, i.length = some l ∧ i.files = none ∧ l ≤ u64Max
+          ∧ pieceCountOk l i.pieceLength i.pieces.length = true)
+       ∨ (∃ fs, i.length = none ∧ i.files = some fs ∧ fs ≠ []
+          ∧ (∀ f ∈ fs, f.length ≤ u64Max ∧ f.path ≠ [] ∧ ∀ c ∈ f.path, utf8Valid c = true ∧ plainComponent c = true)
+          ∧ pieceCountOk ((fs.map (·.length)).sum) i.pieceLength i.pieces.length = true)) := by
+  simp only [specInfo, Option.bind_eq_bind, Option.bind_eq_some_iff] at h
+  obtain ⟨name, _, h⟩ := h
+  split at h
+  · cases h
+  rename_i hu
+  split at h
+  · cases h
+  rename_i hp
+  simp only [Option.bind_eq_some_iff] at h
+  obtain ⟨pieces, _, h⟩ := h
+  split at h
+  · cases h
+  rename_i hm
+  simp only [Option.bind_eq_some_iff] at h
+  obtain ⟨pl, ⟨plv, _, hpl⟩, h⟩ := h
+  have hm' : pieces.length = 20 * (pieces.length / 20) := by omega
+  have hh := splitHashes_mem_length _ _ hm'
+  simp only [Bool.not_eq_true', Bool.not_eq_false] at hu hp
+  split at h
+  · rename_i lv hlv hfl
+    simp only [Option.bind_eq_some_iff] at h
+    obtain ⟨l, hl, h⟩ := h
+    split at h
+    · rename_i hc
+      cases h
+      refine ⟨hu, hp, hh, toU64_le hpl, Or.inl ⟨l, rfl, rfl, toU64_le hl, ?_⟩⟩
+      rw [pieceCountOk_eq_spec]; exact hc
+    · cases h
+  · rename_i items hlv hfl
+    simp only [Option.bind_eq_some_iff] at h
+    obtain ⟨fs, hfs, h⟩ := h
+    split at h
+    · cases h
+    rename_i hne
+    split at h
+    · rename_i hc
+      cases h
+      refine ⟨hu, hp, hh, toU64_le hpl, Or.inr ⟨fs, rfl, rfl, ?_, specFiles_wf hfs, ?_⟩⟩
+      · intro he; apply hne; simp [he]
+      · rw [pieceCountOk_eq_spec]; exact hc
+    · cases h
+  · cases h
+
+
+/-! ### `load` -/
+
+theorem findDict_eq_some {ks : List StrTok} {vs : List Tok} {key : Bytes} {r : List StrTok × List Tok × Nat × Nat} :
+    findDict ks vs key = some r ↔ findValue ks vs key = some (.dict r.1 r.2.1 r.2.2.1 r.2.2.2) := by
+  obtain ⟨a, b, c, d⟩ := r
+  unfold findDict
+  cases findValue ks vs key with
+  | none => simp
+  | some t => cases t <;> simp
+
+theorem findDict_eq_none {ks : List StrTok} {vs : List Tok} {key : Bytes} :
+    findDict ks vs key = none ↔ ∀ a b c d, findValue ks vs key ≠ some (.dict a b c d) := by
+  unfold findDict
+  cases findValue ks vs key with
+  | none => simp
+  | some t => cases t <;> simp
+
+theorem sliceRes_eq {inp : Bytes} {a b : Nat} (h1 : a ≤ b) (h2 : b ≤ inp.length) :
+    sliceRes inp a b = .ok (slice inp a b) := by
+  simp [sliceRes, slice, h1, h2]
+
+/-- what `load` does once the decoder has accepted a dictionary whose `info` entry is a dictionary -/
+theorem load_eq_of_info {H : Bytes → Bytes} {inp : Bytes} {rks iks : List StrTok} {rvs ivs : List Tok} {s0 c0 s c : Nat}
+    (hd : decode inp = .ok (.dict rks rvs s0 c0))
+    (hf : findValue rks rvs kInfo = some (.dict iks ivs s c)) (h1 : s ≤ c) (h2 : c ≤ inp.length) :
+    load H inp = match specInfo (eraseDict iks ivs) with
+      | some info => .ok ⟨info, H (slice inp s c)⟩
+      | none => .err := by
+  have hf' : findDict rks rvs kInfo = some (iks, ivs, s, c) := findDict_eq_some.2 hf
+  simp only [load, hd, hf', sliceRes_eq h1 h2, evaluateInfo_eq]
+  cases specInfo (eraseDict iks ivs) <;> rfl
+
+theorem load_ok_inv {H : Bytes → Bytes} {inp : Bytes} {T : Torrent} (h : load H inp = .ok T) :
+    ∃ rks rvs s0 c0 iks ivs s c, decode inp = .ok (.dict rks rvs s0 c0)
+      ∧ findValue rks rvs kInfo = some (.dict iks ivs s c) := by
+  unfold load at h
+  split at h
+  · cases h
+  · cases h
+  · rename_i rks rvs s0 c0 hd
+    split at h
+    · cases h
+    · rename_i iks ivs s c hf
+      exact ⟨rks, rvs, s0, c0, iks, ivs, s, c, hd, findDict_eq_some.1 hf⟩
+  · cases h
+
+
+/-- everything known about an accepted torrent: the decoded root, its `info` entry, the exact span of that
+    entry, and the record the specification reads off the erased info dictionary -/
+theorem load_ok_struct {H : Bytes → Bytes} {inp : Bytes} {T : Torrent} (h : load H inp = .ok T) :
+    ∃ rks rvs s0 c0 iks ivs s c info,
+      decode inp = .ok (.dict rks rvs s0 c0)
+      ∧ canon (.dict (eraseDict rks rvs)) = true ∧ encode (.dict (eraseDict rks rvs)) = inp
+      ∧ findValue rks rvs kInfo = some (.dict iks ivs s c)
+      ∧ s ≤ c ∧ c ≤ inp.length ∧ slice inp s c = encode (.dict (eraseDict iks ivs))
+      ∧ specInfo (eraseDict iks ivs) = some info ∧ T = ⟨info, H (slice inp s c)⟩ := by
+  obtain ⟨rks, rvs, s0, c0, iks, ivs, s, c, hd, hf⟩ := load_ok_inv h
+  obtain ⟨hcan, henc, hsp, _, _⟩ := C08_sound inp _ hd
+  simp only [erase] at hcan henc
+  obtain ⟨_, _, _, _, hsl⟩ := spansExact_dict hsp
+  obtain ⟨h1, h2, _, h4, _⟩ := spansExact_dict (spansExactList_mem hsl _ (findValue_mem hf))
+  rw [load_eq_of_info hd hf h1 h2] at h
+  cases hs : specInfo (eraseDict iks ivs) with
+  | none => rw [hs] at h; cases h
+  | some info =>
+    rw [hs] at h
+    refine ⟨rks, rvs, s0, c0, iks, ivs, s, c, info, hd, hcan, henc, hf, h1, h2, h4, hs, ?_⟩
+    cases h; rfl
+
+/-- the converse: the canonical encoding of a value the specification accepts loads to that record -/
+theorem load_of_spec {H : Bytes → Bytes} {v : BVal} {T : Torrent}
+    (hc : canon v = true) (hs : specLoad H v = some T) : load H (encode v) = .ok T := by
+  obtain ⟨t, hd, het⟩ := C08_complete v hc
+  obtain ⟨_, _, hsp, _, _⟩ := C08_sound _ _ hd
+  cases v with
+  | int x => simp [specLoad] at hs
+  | str x => simp [specLoad] at hs
+  | list x => simp [specLoad] at hs
+  | dict root =>
+    cases t with
+    | str x => simp [erase] at het
+    | int x a b => simp [erase] at het
+    | list x a b => simp [erase] at het
+    | dict rks rvs s0 c0 =>
+      simp only [erase, BVal.dict.injEq] at het
+      subst het
+      obtain ⟨_, _, _, _, hsl⟩ := spansExact_dict hsp
+      simp only [specLoad, dictGet_eraseDict] at hs
+      cases hf : findValue rks rvs kInfo with
+      | none => simp [hf] at hs
+      | some tok =>
+        cases tok with
+        | str x => simp [hf, erase] at hs
+        | int x a b => simp [hf, erase] at hs
+        | list x a b => simp [hf, erase] at hs
+        | dict iks ivs s c =>
+          obtain ⟨h1, h2, _, h4, _⟩ := spansExact_dict (spansExactList_mem hsl _ (findValue_mem hf))
+          simp only [hf, Option.map_some, erase] at hs
+          rw [load_eq_of_info hd hf h1 h2, h4]
+          cases hsi : specInfo (eraseDict iks ivs) with
+          | none => simp [hsi] at hs
+          | some info =>
+            simp only [hsi, Option.some.injEq] at hs
+            rw [← hs]
+
+/-! ### hexadecimal digits -/
+
+theorem hexDigit_range : ∀ n, n < 16 → (48 ≤ hexDigit n ∧ hexDigit n ≤ 57) ∨ (97 ≤ hexDigit n ∧ hexDigit n ≤ 102) := by
+  decide
+
+theorem hexDigit_inj : ∀ a, a < 16 → ∀ b, b < 16 → hexDigit a = hexDigit b → a = b := by
+  decide
+
 end TB
